@@ -646,7 +646,11 @@ func init() {
 			if !c.Quick() {
 				b = 3
 			}
-			runSched(c, "C06", []string{"R1-swap-swap-same-outputs", "R2-mint-swap-same-outputs"}, b)
+			if c.Quick() {
+				runSched(c, "C06", []string{"R1-swap-swap-same-outputs", "R2-mint-swap-same-outputs"}, b)
+			} else {
+				runSchedAll(c, "C06", []string{"R1-swap-swap-same-outputs", "R2-mint-swap-same-outputs"}, b)
+			}
 		},
 		Worker: dispatchWorker(bfs.Worker(c06All)),
 		Replay: func(p string) int {
